@@ -68,6 +68,7 @@ type Contract struct {
 	NoFrame     bool
 	Cases       []*Clause     // case split: the function is verified once under each case assumption
 	SiteAsserts []*SiteAssert // assertions at the statements whose source line contains a given text
+	AssumedEnsures []*Clause  // ensures_assumed: postconditions callers may use although the function's verification does not establish them (listed as assumptions)
 	CheckPre    []string      // with posts_only: callees whose preconditions are nevertheless obligations here
 	Sets        []*Clause     // sets ghost(g) = expr: ghost assignments made at entry (the event the function stands for)
 	Preserves   []string      // with noframe: heap maps (T.f, T.*) the function never writes (checked syntactically)
@@ -139,7 +140,7 @@ func newContractDB() *ContractDB {
 	return &ContractDB{Funcs: map[string]*Contract{}, Specs: map[string]*SpecFunc{}, Lemmas: map[string]*Lemma{}, Consts: map[string]string{}, Ghosts: map[string]string{}}
 }
 
-var keywordRe = regexp.MustCompile(`^(package|axiom|func|requires|ensures|modifies|mode|loop|invariant|decreases|hint|unfold|use|induct|may_panic|trusted|abstracts|inline|intonly|partial|posts_only|assert_at|assert_call|preserves|sets|volatile_inv|check_pre|wraps_signed|volatile|witness|cases|property|spec|lemma|struct|global|ghost|noframe|const)\b`)
+var keywordRe = regexp.MustCompile(`^(package|axiom|func|requires|ensures|modifies|mode|loop|invariant|decreases|hint|unfold|use|induct|may_panic|trusted|abstracts|inline|intonly|partial|posts_only|assert_at|assert_call|preserves|sets|volatile_inv|check_pre|ensures_assumed|wraps_signed|volatile|witness|cases|property|spec|lemma|struct|global|ghost|noframe|const)\b`)
 
 // stripComment removes a trailing `// ...` that is outside string literals
 func stripComment(s string) string {
@@ -686,6 +687,12 @@ func (db *ContractDB) LoadFile(path, pkgPath string, trusted bool) error {
 					return err
 				}
 				cur.SiteAsserts = append(cur.SiteAsserts, &SiteAssert{Text: text, Cl: cl})
+			case "ensures_assumed":
+				cl, err := parseClause(rest, st.src)
+				if err != nil {
+					return err
+				}
+				cur.AssumedEnsures = append(cur.AssumedEnsures, cl)
 			case "check_pre":
 				for _, f := range strings.Split(rest, ",") {
 					if f = strings.TrimSpace(f); f != "" {
